@@ -45,7 +45,7 @@ Diff(a, b) ==
 TInit == Init /\ id \in DOMAIN Traces /\ k = 0 /\ verdict = "running"
 Act(ev) == CASE ev.a = "step"    -> Step
              [] ev.a = "finish"  -> Finish
-             [] ev.a = "retry"   -> RunHandler(pending) /\ UNCHANGED <<net, nreq, seqc>>
+             [] ev.a = "retry"   -> RunHandler(pending) /\ UNCHANGED <<net, nreq, seqc, sub>>
              [] ev.a = "deliver" -> Deliver(ev.s)
 TNext == /\ verdict = "running" /\ k < Len(Tr)
          /\ k' = k + 1 /\ UNCHANGED id
